@@ -14,7 +14,11 @@ RULE = ('one table row per case, values drawn over exactly the quantified ranges
         'characters (leading digit or not, equal to the element or not), 0-1 character altLoc/chain/iCode, 1-3 character residue names, '
         '1-2 character elements, occupancy/B-factor in [-99.99,999.99], coordinates log-uniform over (-1e7,1e8) plus EVERY multiple of '
         '0.0005 in a +-0.01 window around each of the format-switch thresholds and range ends; the row is written into a real database with '
-        'update(), exported with sql2pdb(), re-parsed with pdb2sql(lines) and exported again. Plus every bundled PDB file. '
+        'update(), exported with sql2pdb(), re-parsed with pdb2sql(lines) and exported again. Plus every bundled PDB file. Plus export '
+        'HISTORIES on files (extra check): 1-2 objects, 1-2 file names in one directory, existing text or not, exports in every mode (default, '
+        'append=True, append=False, chain selections) interleaved with updates that put a coordinate outside (-1e7+0.5, 1e8-0.5) (the export of '
+        'a selection holding it must raise ValueError) and repair it; after every step the directory listing, every file and the text of the '
+        'written file (= text before if append + sql2pdb() lines of the table as it is now) are observed. '
         'Non-trivial = distinct row; coordinates within 0.01 of a threshold are counted separately in the distribution.')
 ASSUMPTIONS = ["CPython '{:>w.kf}'.format(float) is the correctly rounded decimal rendering = Py.fmtFixed (compared on every sampled value)",
                'negative zero is not modelled (Rat has one zero): -0.0 is kept out of the generated coordinates']
@@ -391,6 +395,247 @@ def fx_tie_checks(ctx):
              'ok': bad is None, 'case': bad, 'detail': 'implementation and generated program disagree'}]
 # ===== end fxTie ===================================================================================================
 
+# ===== export histories: what a file holds after ANY sequence of exports to it, failing ones included ==================
+# (round-5 seed C02-r5m2: an "atomic" exportpdb that writes fname + '.tmp' first and leaves it behind when sql2pdb raises; the
+#  next plain export then appends to the stale scratch copy.  Every single export on a clean directory behaved as before.)
+CANNOT_FIT = [1e8 - 0.5, 99999999.7, 1e8, 5e8, 1e12, -1e7 + 0.5, -9999999.6, -1e7, -3e7]      # the property: these must raise
+OLD_TEXTS = ['', 'REMARK old text\n', 'REMARK 1\nREMARK 2\n']
+
+
+def fits(v):
+    return -9999999.4 < v < 99999999.4
+
+
+def cannot_fit(v):
+    return v >= 1e8 - 0.5 or v <= -1e7 + 0.5
+
+
+def fit_coord(rng):
+    while True:
+        v = coord(rng)
+        if fits(v):
+            return v
+
+
+def sel_holds(row, sel):
+    return all(row[4] in v for k, v in sel.items())          # selections used here are on chainID only
+
+
+def hist_table(rng, n):
+    rows = []
+    while len(rows) < n:
+        r = gen_row(rng)
+        if all(fits(v) for v in r[7:10]):
+            r[4] = 'AB'[len(rows) % 2]
+            rows.append(r)
+    return rows
+
+
+def hist_json(tables, existing, steps):
+    return {'tables': [[row_json(r) for r in t] for t in tables], 'existing': existing,
+            'steps': [dict(s, values=[rat(v) for v in s['values']]) if s['t'] == 'set' else s for s in steps]}
+
+
+def run_export_history(root, tables, existing, steps):
+    """tables: rows per database object; existing: [[file name, text]] present before the first step; steps: {'t':'set', db, col, index,
+    values} (update_column) | {'t':'export', db, file, append: None|True|False, sel}.  After EVERY step: the directory holds no
+    file that was never named; every file other than the one written is unchanged; an export whose selected rows have a coordinate
+    that cannot fit raised ValueError; a successful export left exactly (text before if append else nothing) + the sql2pdb() lines of
+    the selected rows of the table AS IT IS NOW, one 80-column record per line.  Returns None or {'step', 'why', ...}; total."""
+    import tempfile
+    d = tempfile.mkdtemp(dir=root, prefix='hist_')
+    dbs = []
+
+    def read(name):
+        p = os.path.join(d, name)
+        if not os.path.exists(p):
+            return None
+        with open(p, newline='') as f:
+            return f.read()
+    try:
+        tabs = [[list(r) for r in t] for t in tables]
+        for t in tabs:
+            db = pdb2sql([DUMMY] * len(t))
+            db.update(COLS, [r[:13] for r in t])
+            dbs.append(db)
+        content = {}
+        for name, text in existing:
+            with open(os.path.join(d, name), 'w', newline='') as f:
+                f.write(text)
+            content[name] = text
+        for si, st in enumerate(steps):
+            db, t = dbs[st['db']], tabs[st['db']]
+            if st['t'] == 'set':
+                db.update_column(st['col'], list(st['values']), index=list(st['index']))
+                for v, i in zip(st['values'], st['index']):
+                    t[i][7 + 'xyz'.index(st['col'])] = v
+                continue
+            name, sel = st['file'], st['sel']
+            chosen = [r for r in t if sel_holds(r, sel)]
+            raising = any(cannot_fit(v) for r in chosen for v in r[7:10])
+            if not raising and not all(fits(v) for r in chosen for v in r[7:10]):
+                continue                                        # (not generated) a value between the two bands: the cases() stream
+            before = content.get(name)
+            try:
+                lines = db.sql2pdb(**sel)
+            except Exception as e:
+                lines = exc_tag(e)
+            kw = {} if st['append'] is None else {'append': st['append']}
+            try:
+                r = db.exportpdb(os.path.join(d, name), **kw, **sel)
+                outcome = 'ok' if r is None else 'returned %r' % (r,)
+            except Exception as e:
+                outcome = exc_tag(e)
+            what = {'step': si, 'call': 'exportpdb(%r%s%s)' % (name, '' if st['append'] is None else ', append=%s' % st['append'],
+                                                              ''.join(', %s=%r' % kv for kv in sel.items()))}
+            listing = sorted(os.listdir(d))
+            got = read(name)
+            stray = [f for f in listing if f != name and f not in content]
+            if stray:
+                return dict(what, why='after the call the directory holds %r: files that were never named' % stray, listing=listing)
+            for other, text in content.items():
+                if other != name and read(other) != text:
+                    return dict(what, why='the call changed another file, %r' % other, now=str(read(other))[:400], before=str(text)[:400])
+            if raising:
+                if outcome != 'ERR:ValueError':
+                    return dict(what, why='a selected coordinate cannot fit its 8 columns: ValueError demanded, got %s' % outcome)
+                if lines != 'ERR:ValueError':
+                    return dict(what, why='sql2pdb() of the same selection: ValueError demanded, got %s' % (str(lines)[:200],))
+                if got is None:
+                    content.pop(name, None)
+                else:
+                    content[name] = got          # whatever a failed export leaves is the text a later append continues
+                continue
+            if outcome != 'ok':
+                return dict(what, why='every selected value fits its field, the export gave %s' % outcome)
+            if not (isinstance(lines, list) and all(isinstance(l, str) for l in lines)):
+                return dict(what, why='sql2pdb() of the same selection gave %s' % (str(lines)[:200],))
+            if len(lines) != len(chosen):
+                return dict(what, why='%d rows selected, sql2pdb() gives %d lines' % (len(chosen), len(lines)))
+            bad80 = [l for l in lines if len(l) != 80 or '\n' in l or '\r' in l]
+            if bad80:
+                return dict(what, why='a line of sql2pdb() is not 80 columns: %r' % bad80[0])
+            want = ((before or '') if st['append'] else '') + ''.join(l + '\n' for l in lines)
+            if got != want:
+                return dict(what, why='the file does not hold %s the lines of the current table (%d lines in the file, %d expected)' % (
+                    'the text it had followed by' if st['append'] else 'exactly', -1 if got is None else got.count('\n'), want.count('\n')),
+                    file=None if got is None else got[:800], expected=want[:800])
+            content[name] = want
+        # reading the files back: one row per ATOM record, the table of pdb2sql(the same lines)
+        for name, text in content.items():
+            recs = [l for l in text.split('\n') if l.startswith('ATOM')]
+            if not recs:
+                continue
+            try:
+                back = pdb2sql(os.path.join(d, name))
+                a = back.get('*')
+                back._close()
+                ref = pdb2sql(recs)
+                b = ref.get('*')
+                ref._close()
+                same = (a == b and len(a) == len(recs))
+            except Exception as e:
+                same, a = False, exc_tag(e)
+            if not same:
+                return {'step': 'read back', 'why': 're-reading %r does not give the table of its %d records' % (name, len(recs)), 'got': str(a)[:400]}
+        return None
+    except Exception as e:                                       # noqa: whatever the harness cannot make sense of is a disagreement
+        return {'step': 'harness', 'why': 'unexpected %s: %s' % (type(e).__name__, str(e)[:300])}
+    finally:
+        for db in dbs:
+            try:
+                db._close()
+            except Exception:                                    # noqa
+                pass
+
+
+def export_history_checks(ctx):
+    rng = ctx.rng
+    root = ctx.tmpdir()
+    hists = []
+    # (a) every short option combination, at every seed: [nothing | old text | an earlier export] ; an export that must raise
+    #     (append / plain / explicit append=False) ; the table repaired and moved ; a later export (same three modes), from the same
+    #     object or from another one
+    for pre in ('none', 'text', 'export'):
+        for fail_mode in (True, None, False):
+            for after_mode in (None, True, False):
+                for other in (False, True):
+                    tables = [hist_table(rng, rng.choice([2, 3, 4]))]
+                    if other:
+                        tables.append(hist_table(rng, rng.choice([1, 3])))
+                    n = len(tables[0])
+                    existing = [['out.pdb', rng.choice(OLD_TEXTS[1:])]] if pre == 'text' else []
+                    steps = [{'t': 'export', 'db': 0, 'file': 'out.pdb', 'append': None, 'sel': {}}] if pre == 'export' else []
+                    i = rng.randrange(n)
+                    col = rng.choice('xyz')
+                    steps.append({'t': 'set', 'db': 0, 'col': col, 'index': [i], 'values': [rng.choice(CANNOT_FIT)]})
+                    steps.append({'t': 'export', 'db': 0, 'file': 'out.pdb', 'append': fail_mode, 'sel': {}})
+                    steps.append({'t': 'set', 'db': 0, 'col': col, 'index': [i], 'values': [fit_coord(rng)]})
+                    steps.append({'t': 'set', 'db': 0, 'col': 'x', 'index': list(range(n)), 'values': [fit_coord(rng) for _ in range(n)]})
+                    steps.append({'t': 'export', 'db': 1 if other else 0, 'file': 'out.pdb', 'append': after_mode, 'sel': {}})
+                    if rng.random() < 0.5:
+                        steps.append({'t': 'export', 'db': 0, 'file': 'out.pdb', 'append': rng.choice([None, True]), 'sel': rng.choice([{}, {'chainID': ['A']}])})
+                    hists.append((tables, existing, steps))
+    nfixed = len(hists)
+    # (b) random histories: 1-2 objects, 1-2 file names in one directory, 3-9 steps; coordinates that cannot fit are set and repaired
+    #     along the way; selections on a chain (an export of the chain WITHOUT the unfit coordinate must succeed)
+    for _ in range(ctx.scale(40, 600)):
+        tables = [hist_table(rng, rng.randint(1, 6)) for _ in range(rng.choice([1, 1, 2]))]
+        names = ['exp.pdb', 'second.pdb'][:rng.choice([1, 1, 2])]
+        existing = [[nm, rng.choice(OLD_TEXTS)] for nm in names if rng.random() < 0.3]
+        steps = []
+        broken = {}                                            # (db, row, col) currently holding an unfit value
+        for _ in range(rng.randint(3, 9)):
+            k = rng.randrange(len(tables))
+            n = len(tables[k])
+            u = rng.random()
+            if u < 0.2:
+                i, col = rng.randrange(n), rng.choice('xyz')
+                steps.append({'t': 'set', 'db': k, 'col': col, 'index': [i], 'values': [rng.choice(CANNOT_FIT)]})
+                broken[(k, i, col)] = True
+            elif u < 0.4 and broken:
+                (kk, i, col) = rng.choice(sorted(broken))
+                del broken[(kk, i, col)]
+                steps.append({'t': 'set', 'db': kk, 'col': col, 'index': [i], 'values': [fit_coord(rng)]})
+            elif u < 0.5:
+                col = rng.choice('xyz')
+                idx = [i for i in range(n) if (k, i, col) not in broken]
+                if idx:
+                    steps.append({'t': 'set', 'db': k, 'col': col, 'index': idx, 'values': [fit_coord(rng) for _ in idx]})
+            else:
+                steps.append({'t': 'export', 'db': k, 'file': rng.choice(names), 'append': rng.choice([None, None, False, True, True]),
+                              'sel': rng.choice([{}, {}, {'chainID': ['A']}, {'chainID': ['B']}, {'chainID': ['A', 'B']}])})
+        hists.append((tables, existing, steps))
+    bad = None
+    nexp = nfail = nafter = 0
+    for tables, existing, steps in hists:
+        r = run_export_history(root, tables, existing, steps)
+        if r is not None and bad is None:
+            bad = dict(hist_json(tables, existing, steps), failure=r)
+            break
+    # what the histories contain (from the generator's own book-keeping, independent of the library)
+    for tables, existing, steps in hists:
+        tabs = [[list(r) for r in t] for t in tables]
+        failed = set()
+        for s in steps:
+            if s['t'] == 'set':
+                for v, i in zip(s['values'], s['index']):
+                    tabs[s['db']][i][7 + 'xyz'.index(s['col'])] = v
+            else:
+                nexp += 1
+                if any(cannot_fit(v) for r in tabs[s['db']] if sel_holds(r, s['sel']) for v in r[7:10]):
+                    nfail += 1
+                    failed.add(s['file'])
+                elif s['file'] in failed:
+                    nafter += 1
+    return [{'name': f'{len(hists)} export histories ({nfixed} = every short option combination; {nexp} exports, {nfail} that must raise, {nafter} successful '
+                     f'exports to a file name after a failed one): directory listing, every file, ValueError, file text = current table after every step',
+             'ok': bad is None and nfail >= 20 and nafter >= 20, 'case': bad,
+             'detail': 'exportpdb() file bytes are not the sql2pdb() lines of the table as it is now / a file that was never named appears / '
+                       'a coordinate that cannot fit did not raise'}]
+# ===== end export histories ========================================================================================
+
+
 def extra_checks(ctx):
     res = []
     rng = ctx.rng
@@ -408,7 +653,7 @@ def extra_checks(ctx):
                 'case': bad, 'detail': 'a canonical ATOM record is not reproduced unchanged'})
     # file export: exportpdb writes every line followed by a newline; appending a second export keeps the records apart
     import tempfile
-    d = ctx.tmpdir()
+    d = tempfile.mkdtemp(dir=ctx.tmpdir(), prefix='exp_')          # a directory of its own: its listing is observed after every export
     bad = None
     nfiles = 0
     for k in range(ctx.scale(12, 120)):
@@ -425,14 +670,20 @@ def extra_checks(ctx):
         db.exportpdb(fn)
         want = ''.join(l + '\n' for l in lines_all)
         steps = [('exportpdb', want)]
+        listings = [sorted(os.listdir(d))]
         for sel in ({'chainID': 'A'}, {'chainID': 'B'}, {}):
             if rng.random() < 0.7:
                 more = db.sql2pdb(**sel)
                 db.exportpdb(fn, append=True, **sel)
                 want += ''.join(l + '\n' for l in more)
                 steps.append(('append %s' % sel, want))
+                listings.append(sorted(os.listdir(d)))
         got = open(fn).read()
         nfiles += 1
+        if any(l != [os.path.basename(fn)] for l in listings):
+            bad = {'rows': [row_json(r + [0]) for r in rows], 'steps': [s_[0] for s_ in steps], 'why': 'after an export the directory does not hold the named file and nothing else',
+                   'listings': listings}
+            break
         if got != want:
             bad = {'rows': [row_json(r + [0]) for r in rows], 'steps': [s_[0] for s_ in steps], 'file': got[:600], 'expected': want[:600]}
             break
@@ -488,4 +739,5 @@ def extra_checks(ctx):
         res.append({'name': f'canonical records of {os.path.basename(f)} reproduced in columns 1-66 and 77-78 ({ncan}/{len(recs)} canonical)',
                     'ok': bad is None, 'case': bad, 'detail': 'a canonical ATOM record is not reproduced unchanged'})
     res += fx_tie_checks(ctx)                       # fxTie
+    res += export_history_checks(ctx)               # last: the random streams of the checks above are unchanged
     return res
